@@ -43,7 +43,7 @@ std::string op_str(const Op& op) {
     }
     case OP_MONITOR: { const Shape& sh = g_shapes[op.shape]; o << " e" << (int)op.slot << " := REQUIRE_DESTRUCTION(w" << (int)op.obj << ')'; if (sh.seqar >= 1) o << " seq=s" << (int)op.s1; if (sh.seqar >= 2) o << ",s" << (int)op.s2; break; }
     case OP_RELEASE: o << " e" << (int)op.slot; if (op.k1 == 1) o << " [during stack unwinding]"; break;
-    case OP_CALL: o << " obj" << (int)op.obj << '.' << FNN[op.fn] << '('; if (op.fn != Z0) o << (int)op.a1; if (op.fn == F2) o << ',' << (int)op.a2; o << ')'; if (op.k1 == 1) o << " [from a catch handler]"; if (op.k1 == 2) o << " [from a destructor during stack unwinding]"; break;
+    case OP_CALL: o << " obj" << (int)op.obj << '.' << FNN[op.fn] << '('; if (op.fn != Z0) o << (int)op.a1; if (op.fn == F2) o << ',' << (int)op.a2; o << ')'; if (op.k1 == 1) o << " [from a catch handler]"; if (op.k1 == 2) o << " [from a destructor during stack unwinding]"; if (op.k1 == 3) o << " [on another thread]"; break;
     case OP_DESTROY_MOCK: case OP_ARM_REPORTER: o << " obj" << (int)op.obj; if (op.kind == OP_DESTROY_MOCK && op.k1 == 1) o << " [during stack unwinding]"; break;
     case OP_MOVE_MOCK: o << " obj" << (int)op.obj << " -> obj" << (int)op.k1; break;
     case OP_ASSIGN_SEQ: o << " s" << (int)op.s1; if (op.k1 >= 1) o << " from s" << (int)op.s2 << (op.k1 == 2 ? " (the moved-from object is destroyed at once)" : " (the moved-from object stays alive)"); break;
